@@ -183,6 +183,37 @@ theorem seegerBeste_backward_bisection_converges (h : m.Adm) (hKp : 1 < m.Kp) {s
     simp only [hG0] at this
     exact this
 
+/-- **The end value the repaired solver uses at `σ = L`** (`SeegerBeste._stress_implicit_limit`,
+tools/fixes/C06-seegerbeste-bisection-accuracy.diff): the coded quotient form tends to `ε(L) / (K_p·e*(L)) − 1` for
+`σ → L⁻` (the middle term tends to 1, `seegerBeste_middleTerm_limit`), and this limit is `≥ 0`: the sign the bisection
+assumes above the root.  (The VALUE of the coded function at `σ = L` is `ε/0 − 1`, not this limit.) -/
+theorem seegerBeste_implicit_limit_at_load (h : m.Adm) (hKp : 1 < m.Kp) {L : ℝ} (hL : 0 < L) :
+    Filter.Tendsto (fun s => sbStressImplicit m s L) (nhdsWithin L (Set.Iio L))
+      (nhds (roStrain m L / (m.Kp * eStar m L) - 1)) ∧
+    0 ≤ roStrain m L / (m.Kp * eStar m L) - 1 := by
+  have he := eStar_pos h hL
+  have hden : 0 < m.Kp * eStar m L := mul_pos h.Kp_pos he
+  constructor
+  · have hM := (seegerBeste_middleTerm_limit (m := m) hKp hL).1
+    have hid : Filter.Tendsto (fun s : ℝ => s) (nhdsWithin L (Set.Iio L)) (nhds L) :=
+      Filter.tendsto_id.mono_left nhdsWithin_le_nhds
+    have hro : Filter.Tendsto (fun s => roStrain m s) (nhdsWithin L (Set.Iio L)) (nhds (roStrain m L)) :=
+      ((roStrain_continuousOn h).continuousAt (Ici_mem_nhds hL)).tendsto.mono_left nhdsWithin_le_nhds
+    have hN : Filter.Tendsto (fun s => L / s * m.Kp * eStar m L) (nhdsWithin L (Set.Iio L)) (nhds (L / L * m.Kp * eStar m L)) :=
+      ((tendsto_const_nhds.div hid hL.ne').mul tendsto_const_nhds).mul tendsto_const_nhds
+    have hMN := hM.mul hN
+    have e1 : (1 : ℝ) * (L / L * m.Kp * eStar m L) = m.Kp * eStar m L := by rw [div_self hL.ne']; ring
+    rw [e1] at hMN
+    have hq := (hro.div hMN hden.ne').sub (tendsto_const_nhds (x := (1 : ℝ)))
+    refine hq.congr' ?_
+    filter_upwards [Ioo_mem_nhdsLT hL] with s hs
+    have hs0 : s ≠ 0 := hs.1.ne'
+    unfold sbStressImplicit neuberStrain
+    rw [ratio_of_ne hs0, lit1]
+    rfl
+  · rw [sub_nonneg, le_div_iff₀ hden, one_mul, eStar_eq]
+    exact kp_mul_estar_le h hL.le
+
 /-- non-vacuity: the bound at a concrete material, load and number of halvings -/
 example : ∃ r : ℝ, 400 / 3.5 < r ∧ r < 400 ∧
     |bisect (fun s => sbStressImplicit (⟨206000, 1184, 0.187, 3.5⟩ : Mat ℝ) s 400) 30 (400 / 3.5) 400 - r|
